@@ -163,10 +163,33 @@ func (c *RC) kindsOfExpr(fn *FuncInfo, e ast.Expr, depth int) []string {
 		}
 		found := false
 		// parameters: unknown kind
-		for _, p := range fn.Params {
+		for j, p := range fn.Params {
 			if p == v {
-				set["?param:"+p.Name()] = true
 				found = true
+				// inside a helper walked inline at its call sites: what the caller in question passes
+				if caller := c.kindCaller; caller != nil && caller != fn {
+					resolved := false
+					cinfo := caller.Pkg.TypesInfo
+					ast.Inspect(caller.Decl.Body, func(n ast.Node) bool {
+						call, ok := n.(*ast.CallExpr)
+						if !ok || j >= len(call.Args) || call.Ellipsis.IsValid() {
+							return true
+						}
+						cw := &Walker{A: c.A, Fn: caller, info: cinfo}
+						if cw.staticCallee(call) != fn {
+							return true
+						}
+						resolved = true
+						c.kindCaller = nil
+						add(c.kindsOfExpr(caller, call.Args[j], depth+1))
+						c.kindCaller = caller
+						return true
+					})
+					if resolved {
+						continue
+					}
+				}
+				set["?param:"+p.Name()] = true
 			}
 		}
 		// all assignments to v in fn
